@@ -56,17 +56,17 @@ type Scenario struct {
 	Horizon int  // max environment events
 	Timed   bool // timers fire in deadline order only
 	// Goal ends the execution (checked at quiescent points once the script is finished).
-	Goal                   func(w *World) bool
-	AutoRestart            bool
-	Pipeline               bool
-	NotifyCh               bool
-	SlowFSM                bool // FSM applications are granted one by one by the environment (after scripted steps, before timers)
-	HBFastPath             bool // heartbeats are handed to the registered heartbeat handler on a transport thread (as NetworkTransport does)
-	Liveness               bool // at the end of the run every call must have resolved if it was issued long ago (virtual time and events)
+	Goal        func(w *World) bool
+	AutoRestart bool
+	Pipeline    bool
+	NotifyCh    bool
+	SlowFSM     bool // FSM applications are granted one by one by the environment (after scripted steps, before timers)
+	HBFastPath  bool // heartbeats are handed to the registered heartbeat handler on a transport thread (as NetworkTransport does)
+	Liveness    bool // at the end of the run every call must have resolved if it was issued long ago (virtual time and events)
 	// GiveUpAt/GiveUpTo: when the script has not reached step GiveUpTo after GiveUpAt events (a deviation made a
 	// guard unsatisfiable, or the implementation is stuck), the steps in between are skipped
-	GiveUpAt int
-	GiveUpTo string
+	GiveUpAt               int
+	GiveUpTo               string
 	Fine                   bool // branch on thread steps (preemption bounded)
 	RCL                    bool // RestoreCommittedLogs
 	NoStoreFaultBeforeStep int  // store faults only count from this script position on
